@@ -222,9 +222,15 @@ func (e *c11Env) unholdBg() {
 	e.mu.Lock()
 	e.bgArm = ""
 	e.mu.Unlock()
-	select {
-	case e.bgCh <- struct{}{}:
-	default:
+	// release EVERY background flusher parked at the hold point (a quitting flusher can be parked while a restarted one
+	// reaches the same point: `fl=hold,hold`), not only one of them - the model's `unhold bg` removes the hold for all
+	for i := 0; i < 64; i++ {
+		select {
+		case e.bgCh <- struct{}{}:
+			continue
+		default:
+		}
+		break
 	}
 }
 
